@@ -3,6 +3,7 @@ package rules
 import (
 	"fmt"
 	"go/token"
+	"go/types"
 	"sort"
 	"strings"
 
@@ -307,8 +308,11 @@ func c08(w *core.World, r *core.Report) {
 		var rng *ssa.Range
 		for _, b := range core.Blocks(f) {
 			for _, in := range b.Instrs {
-				if x, ok := in.(*ssa.Range); ok && core.FieldOf(x.X) == "tree.TreeCacheClientImpl.intendedStoreIndex" {
-					rng = x
+				// the walk over the keys index: a range over a map from index key to the entries stored under it
+				if x, ok := in.(*ssa.Range); ok {
+					if mt, isMap := x.X.Type().Underlying().(*types.Map); isMap && core.TypeKey(mt.Elem()) == "tree.UpdateSlice" {
+						rng = x
+					}
 				}
 			}
 		}
@@ -322,7 +326,7 @@ func c08(w *core.World, r *core.Report) {
 			for _, b := range core.Blocks(f) {
 				for _, in := range b.Instrs {
 					bo, ok := in.(*ssa.BinOp)
-					if !ok || bo.Op != token.EQL {
+					if !ok || (bo.Op != token.EQL && bo.Op != token.NEQ) {
 						continue
 					}
 					isJoin := func(v ssa.Value) bool {
@@ -438,6 +442,21 @@ func c10(w *core.World, r *core.Report) {
 
 	// ---- FORWARD
 	r.Rule("FORWARD", 8, "the recursive encoders (toXmlInternal, toJsonInternal, GetHighestPrecedence, GetDeletes) pass every option parameter of the caller unchanged and in the same position to every recursive call; toXmlInternal hands operationWithNamespace / useOperationRemove (and onlyNewOrUpdated) unchanged to AddXMLOperation / TypedValueToXML; the public entry points (ToXML, ToJson, ToJsonIETF, TargetSourceReplace.ToXML) forward their parameters.")
+	// isParam: v is parameter p of host f and nothing else, possibly carried through an options struct or a helper
+	isParam := func(f *ssa.Function, v ssa.Value, p *ssa.Parameter) bool {
+		if p == nil || v == nil {
+			return false
+		}
+		if v == ssa.Value(p) {
+			return true
+		}
+		ok := false
+		core.WithHost(f, func() {
+			os := core.Origins(v)
+			ok = len(os) == 1 && os[0] == ssa.Value(p)
+		})
+		return ok
+	}
 	forward := func(f *ssa.Function, recKeys []string, optNames []string) {
 		pidx := map[string]int{}
 		for i, p := range f.Params {
@@ -457,9 +476,7 @@ func c10(w *core.World, r *core.Report) {
 				}
 				ai := pi - off
 				okArg := false
-				core.WithHost(f, func() {
-					okArg = ai >= 0 && ai < len(all) && (all[ai] == ssa.Value(f.Params[pi]) || (c.Parent() != f && core.HasOrigin(all[ai], f.Params[pi])))
-				})
+				okArg = ai >= 0 && ai < len(all) && isParam(f, all[ai], f.Params[pi])
 				r.Check(okArg, "FORWARD", core.Site(f, "%s passes %s to %s", f.Name(), on, shortSrc(callee)), w.InstrPos(c), "option must be forwarded unchanged and in position")
 			}
 		}
@@ -473,7 +490,7 @@ func c10(w *core.World, r *core.Report) {
 	// helper calls inside toXmlInternal
 	for _, c := range core.CallsTo(xml, "utils.AddXMLOperation") {
 		a := core.CallArgs(c)
-		ok := len(a) == 4 && a[2] == ssa.Value(core.Param(xml, "operationWithNamespace")) && a[3] == ssa.Value(core.Param(xml, "useOperationRemove"))
+		ok := len(a) == 4 && isParam(xml, a[2], core.Param(xml, "operationWithNamespace")) && isParam(xml, a[3], core.Param(xml, "useOperationRemove"))
 		r.Check(ok, "FORWARD", core.Site(xml, "AddXMLOperation flags"), w.InstrPos(c), "operation flags forwarded in position")
 		if len(a) == 4 {
 			s, isC := core.ConstString(a[1])
@@ -485,7 +502,7 @@ func c10(w *core.World, r *core.Report) {
 	}
 	for _, c := range core.CallsTo(xml, "utils.TypedValueToXML") {
 		a := core.CallArgs(c)
-		ok := len(a) == 7 && a[4] == ssa.Value(core.Param(xml, "onlyNewOrUpdated")) && a[5] == ssa.Value(core.Param(xml, "operationWithNamespace")) && a[6] == ssa.Value(core.Param(xml, "useOperationRemove"))
+		ok := len(a) == 7 && isParam(xml, a[4], core.Param(xml, "onlyNewOrUpdated")) && isParam(xml, a[5], core.Param(xml, "operationWithNamespace")) && isParam(xml, a[6], core.Param(xml, "useOperationRemove"))
 		r.Check(ok, "FORWARD", core.Site(xml, "TypedValueToXML flags"), w.InstrPos(c), "flags forwarded in position")
 	}
 	for _, e := range []struct{ recv, name, callee string }{
@@ -532,7 +549,7 @@ func c10(w *core.World, r *core.Report) {
 			args := core.CallArgs(c)
 			ok := len(args) == 4
 			for i := 0; ok && i < 4; i++ {
-				if args[i] != ssa.Value(f.Params[i+1]) {
+				if !isParam(f, args[i], f.Params[i+1]) {
 					ok = false
 				}
 			}
@@ -568,18 +585,44 @@ func c10(w *core.World, r *core.Report) {
 		}
 	}
 	if f := w.Func("pkg/datastore/target", "gnmiTarget", "Set"); f != nil {
-		nEnc := 0
+		encs := map[string]bool{}
+		var sends, encCalls []ssa.Instruction
 		for _, c := range core.Calls(f) {
-			k := core.CalleeKey(c)
-			if k == "datastore/target.TargetSource.ToJson" || k == "datastore/target.TargetSource.ToJsonIETF" || k == "datastore/target.TargetSource.ToProtoUpdates" {
-				nEnc++
-				a := core.CallArgs(c)
-				b, isC := core.ConstBool(a[len(a)-1])
-				r.Check(isC && b, "TARGET-OPTIONS", core.Site(f, "%s onlyNewOrUpdated=true", shortSrc(k)), w.InstrPos(c), "targets send the changes only")
+			// an encoder may be called directly or handed on as a method value (source.ToJson) to a shared helper
+			for _, k := range core.ResolvedCalleeKeys(c) {
+				if k == "datastore/target.TargetSource.ToJson" || k == "datastore/target.TargetSource.ToJsonIETF" || k == "datastore/target.TargetSource.ToProtoUpdates" {
+					encs[k] = true
+					encCalls = append(encCalls, c)
+					a := c.Common().Args
+					b, isC := false, false
+					if len(a) > 0 {
+						b, isC = core.ConstBool(a[len(a)-1])
+					}
+					r.Check(isC && b, "TARGET-OPTIONS", core.Site(f, "%s onlyNewOrUpdated=true", shortSrc(k)), w.InstrPos(c), "targets send the changes only")
+				}
+			}
+			if core.CalleeIs(c, "github.com/openconfig/gnmic/pkg/target.Target.Set") {
+				sends = append(sends, c)
 			}
 		}
+		// whatever the encoding, the deletes come from ToProtoDeletes: no path to the request being sent avoids it
+		isDel := func(in ssa.Instruction) bool {
+			c, ok := in.(ssa.CallInstruction)
+			return ok && core.CalleeIs(c, "datastore/target.TargetSource.ToProtoDeletes")
+		}
 		nDel := len(core.CallsTo(f, "datastore/target.TargetSource.ToProtoDeletes"))
-		r.Check(nEnc == 3 && nDel == 3, "TARGET-OPTIONS", core.Site(f, "every encoding takes deletes from ToProtoDeletes"), w.Pos(f.Pos()), fmt.Sprintf("%d encoders, %d ToProtoDeletes calls", nEnc, nDel))
+		okDel := nDel > 0 && len(sends) > 0
+		for _, s := range sends {
+			for _, e := range encCalls {
+				// a run that encodes with e and sends s without asking for the deletes in between (before or after e)
+				before, _ := core.AlwaysBefore(isDel, e)
+				after, _ := core.PathQuery{Avoid: isDel}.Reaches(e.Block(), core.InstrIndex(e)+1, func(in ssa.Instruction) bool { return in == s })
+				if !before && after {
+					okDel = false
+				}
+			}
+		}
+		r.Check(len(encs) == 3 && okDel, "TARGET-OPTIONS", core.Site(f, "every encoding takes deletes from ToProtoDeletes"), w.Pos(f.Pos()), fmt.Sprintf("%d encoders, %d ToProtoDeletes calls, %d sends", len(encs), nDel, len(sends)))
 	}
 
 	// ---- SORT-SHARED (shared with C11): the XML renderer needs the key names in key-statement order
